@@ -24,7 +24,7 @@ CREATES = {'mock': ('mock', 'o'), 'seq': ('seq', 's'), 'expect': ('exp', 'e'), '
            'tracer': ('tracer', 't')}
 USES = {
     'expect': [('mock', 'o'), ('seq*', 'S')], 'call': [('mock', 'o')], 'sat': [('exp', 'e')], 'satd': [('exp', 'e')],
-    'release': [('exp', 'e')], 'move': [('mock', 'o')], 'kill': [('mock', 'o')], 'killseq': [('seq', 's')],
+    'release': [('exp', 'e')], 'releasek': [('exp', 'e'), ('mock', 'o')], 'move': [('mock', 'o')], 'kill': [('mock', 'o')], 'killseq': [('seq', 's')],
     'completed': [('seq', 's')], 'copyw': [('w', 'x')], 'movew': [('w', 'x')], 'assignw': [('w', 'd'), ('w', 's')],
     'killw': [('w', 'x')], 'monitor': [('w', 'x'), ('seq*', 'S')], 'msat': [('mon', 'm')], 'msatd': [('mon', 'm')],
     'releasemon': [('mon', 'm')], 'killtracer': [('tracer', 't')],
@@ -68,6 +68,8 @@ def render(ops):
             lines.append(' '.join(['call', n('mock', op['o']), str(op['fn'])] + [str(a) for a in op['a']]))
         elif name in ('sat', 'satd', 'release'):
             lines.append('%s %s' % (name, n('exp', op['e'])))
+        elif name == 'releasek':
+            lines.append('releasek %s %s' % (n('exp', op['e']), n('mock', op['o'])))
         elif name == 'move':
             lines.append('move %s %s' % (n('mock', op['o']), n('mock', op['o2'])))
         elif name == 'kill':
@@ -261,7 +263,14 @@ class Gen:
         if not self.exps:
             return
         e = self.r.choice(list(self.exps))
+        owner = self.exps[e]['o']
         del self.exps[e]
+        if self.mocks and self.r.random() < 0.12:
+            # the reporter tears the fixture down while it is handed this expectation's end-of-life report (if there is one)
+            o = owner if owner in self.mocks and self.r.random() < 0.7 else self.r.choice(list(self.mocks))
+            del self.mocks[o]
+            self.emit(op='releasek', e=e, o=o)
+            return
         self.emit(op='release', e=e)
 
     def do_mockops(self):
@@ -478,7 +487,7 @@ def enum_lifetimes(rng=None, sample=None):
     """C04: 1–2 expectations × bounds × counts × every order of {release, kill, move-then-kill,
     earlier no-match listing, earlier forbidden report, saturation}."""
     bounds = [(0, 0), (0, INF), (1, 1), (2, 3), (1, 2)]
-    acts = ['call_hit', 'call_miss', 'release0', 'release1', 'kill', 'move', 'sat0', 'satd0']
+    acts = ['call_hit', 'call_miss', 'release0', 'release1', 'kill', 'move', 'sat0', 'satd0', 'releasek0', 'releasek1']
     seqs_ops = []
     for L in range(1, 5):
         seqs_ops += list(itertools.product(acts, repeat=L))
@@ -514,6 +523,15 @@ def enum_lifetimes(rng=None, sample=None):
                     break
                 alive.discard(e)
                 ops.append(dict(op='release', e=e))
+            elif k in ('releasek0', 'releasek1'):
+                # release with a reporter that destroys the mock from inside the report
+                e = int(k[-1])
+                if e not in alive or mock is None:
+                    ok = False
+                    break
+                alive.discard(e)
+                ops.append(dict(op='releasek', e=e, o=mock))
+                mock = None
             elif k == 'kill':
                 if mock is None:
                     ok = False
